@@ -26,6 +26,16 @@ class Closure:
         self.node, self.env, self.interp = node, env, interp
 
 
+IDENTITY = object()      # marker: the element expression of a comprehension is the element itself
+
+
+class SymGen:
+    """a generator expression over a symbolic-length sequence: (sequence, bound index, element value at that index)"""
+
+    def __init__(self, it, i, val):
+        self.it, self.i, self.val = it, i, val
+
+
 class NS:
     """attribute view of a dict (for invariants / contracts)"""
 
@@ -120,6 +130,8 @@ class Interp:
             return FuncRef("builtin", name)
         if name in EXC_NAMES:
             return FuncRef("exc", name)
+        if name == "object":
+            return FuncRef("builtin", "object")
         if name in BUILTIN_TYPES:
             return FuncRef("type", name)
         if name in ("True", "False", "None"):
@@ -165,10 +177,33 @@ class Interp:
         env[n.target.id] = v
         return v
 
+    pure = 0     # >0: evaluating the body of a quantified comprehension: no path forks, boolean structure becomes formulas
+
     def e_IfExp(self, n, env):
+        if self.pure:
+            t = self.truthy(self.eval(n.test, env))
+            if isinstance(t, bool):
+                return self.eval(n.body if t else n.orelse, env)
+            a, b = self.eval(n.body, env), self.eval(n.orelse, env)
+            return self.ite(t, a, b)
         if self.decide(self.eval(n.test, env)):
             return self.eval(n.body, env)
         return self.eval(n.orelse, env)
+
+    def ite(self, c, a, b):
+        if a is b:
+            return a
+        if isinstance(a, tuple) and isinstance(b, tuple) and len(a) == len(b):
+            return tuple(self.ite(c, x, y) for x, y in zip(a, b))
+        if isinstance(a, Rec) and isinstance(b, Rec) and a.cls is b.cls:
+            return Rec(a.cls, {k: self.ite(c, a.f[k], b.f[k]) for k in a.f})
+        if (is_sym_bool(a) or isinstance(a, bool)) and (is_sym_bool(b) or isinstance(b, bool)):
+            return z3.If(c, to_bool_term(a), to_bool_term(b))
+        if is_intlike(a) and is_intlike(b):
+            return z3.If(c, to_int_term(a), to_int_term(b))
+        if isinstance(a, (FloatV, float)) or isinstance(b, (FloatV, float)):
+            return FloatV(z3.If(c, real_of(a), real_of(b)))
+        raise Unsupp(f"conditional value of mixed kinds: {a!r} / {b!r}")
 
     def e_Lambda(self, n, env):
         return Closure(n, env, self)
@@ -197,6 +232,25 @@ class Interp:
 
     def e_BoolOp(self, n, env):
         is_and = isinstance(n.op, ast.And)
+        if self.pure:
+            # no short-circuit fork: operands are evaluated left to right; a concretely decided operand short-circuits
+            acc = None
+            for e in n.values:
+                try:
+                    t = self.truthy(self.eval(e, env))
+                except (RaiseExc, Unsupp):
+                    if acc is None:
+                        raise
+                    # an operand that cannot be evaluated is only reached when the accumulated guard lets it: keep the guard
+                    raise Unsupp("operand of a boolean expression is partial in a quantified context")
+                if isinstance(t, bool):
+                    if is_and and not t:
+                        return False if acc is None else self.and_(acc, False)
+                    if not is_and and t:
+                        return True if acc is None else self.or_(acc, True)
+                    continue
+                acc = t if acc is None else (self.and_(acc, t) if is_and else self.or_(acc, t))
+            return (is_and if acc is None else acc)
         v = None
         for i, e in enumerate(n.values):
             v = self.eval(e, env)
@@ -278,6 +332,10 @@ class Interp:
         return {ast.Lt: x < y, ast.LtE: x <= y, ast.Gt: x > y, ast.GtE: x >= y}[type(op)]
 
     def equal(self, a, b):
+        if isinstance(a, Rec) and a.cls.is_namedtuple and "__eq__" not in a.cls.methods:
+            a = tuple(a.f[k] for k in a.cls.fields)
+        if isinstance(b, Rec) and b.cls.is_namedtuple and "__eq__" not in b.cls.methods:
+            b = tuple(b.f[k] for k in b.cls.fields)
         if isinstance(a, Rec):
             if "__eq__" in a.cls.methods:
                 return self.truthy(self.call_method(a, "__eq__", [b], {}))
@@ -484,6 +542,8 @@ class Interp:
                 return BoundMethod(obj, attr)
             if attr == "__class__":
                 return FuncRef("class", obj.cls.name, obj.cls)
+            if attr in obj.cls.class_attrs:
+                return self.eval(obj.cls.class_attrs[attr], {})
             raise RaiseExc("AttributeError", node)
         if isinstance(obj, FuncRef) and obj.kind == "class":
             ci = obj.info
@@ -511,6 +571,8 @@ class Interp:
         return self.index(obj, idx, n)
 
     def index(self, obj, idx, node=None):
+        if isinstance(obj, Rec) and obj.cls.is_namedtuple:
+            obj = tuple(obj.f[k] for k in obj.cls.fields)
         if isinstance(obj, (tuple, PyList)):
             items = obj if isinstance(obj, tuple) else obj.items
             if isinstance(idx, bool):
@@ -550,6 +612,10 @@ class Interp:
         if isinstance(obj, SeqV) and st is None:
             ln = z3.Length(obj.term)
 
+            if hi is None and isinstance(lo, int) and lo >= 0:
+                # s[k:] for a constant k >= 0: extract(s, k, len - k) (empty when k >= len)
+                return SeqV(z3.Extract(obj.term, z3.IntVal(lo), ln - lo), obj.elem, obj.is_tuple)
+
             def norm(x, default):
                 if x is None:
                     return default
@@ -562,7 +628,11 @@ class Interp:
 
     # ------------------------------------------------------------------ comprehensions (concrete iteration only)
     def iter_concrete(self, v):
+        if isinstance(v, Rec) and v.cls.is_namedtuple:
+            return [v.f[k] for k in v.cls.fields]
         if isinstance(v, tuple):
+            return list(v)
+        if isinstance(v, str):
             return list(v)
         if isinstance(v, PyList):
             return list(v.items)
@@ -594,11 +664,82 @@ class Interp:
         rec(n.generators, dict(env))
         return out
 
+    def sym_comp(self, n, env):
+        """comprehension over ONE symbolic-length sequence without filter: returns (seq, index var, element value) after
+        evaluating the element expression in pure mode, or None when the iterable is concrete"""
+        if len(n.generators) != 1 or n.generators[0].ifs:
+            return None
+        g = n.generators[0]
+        it = self.eval(g.iter, env)
+        if not isinstance(it, SeqV):
+            return None
+        i = z3.Int(self.ctx.fresh_name("ci"))
+        e2 = dict(env)
+        self.assign(g.target, self.world.unbox(it.term[i], it.elem), e2)
+        elem_obj = e2.get(g.target.id) if isinstance(g.target, ast.Name) else None
+        self.pure += 1
+        try:
+            val = self.eval(n.elt, e2)
+        finally:
+            self.pure -= 1
+        if elem_obj is not None and val is elem_obj:
+            val = IDENTITY
+        return it, i, val, e2
+
     def e_ListComp(self, n, env):
-        return PyList(self.comp(n, env, lambda e: self.eval(n.elt, e)))
+        sc = self.sym_comp(n, env)
+        if sc is None:
+            return PyList(self.comp(n, env, lambda e: self.eval(n.elt, e)))
+        return self.sym_map(*sc[:3])
+
+    def sym_map(self, it, i, val):
+        """[f(x) for x in seq]: fresh sequence r with len(r) == len(seq) and forall i. r[i] == f(seq[i])"""
+        if val is IDENTITY:
+            return SeqV(it.term, it.elem, False)
+        elem = self.type_of(val)
+        if elem is not None and self.same_term(self.world.box(val, elem), it.term[i]):
+            return SeqV(it.term, it.elem, False)       # identity map
+        if elem is None:
+            raise Unsupp("element type of a symbolic comprehension")
+        r = z3.Const(self.ctx.fresh_name("mapped"), z3.SeqSort(self.world.sort_of(elem)))
+        rng = z3.And(i >= 0, i < z3.Length(it.term))
+        self.ctx.assume(z3.Length(r) == z3.Length(it.term))
+        self.ctx.assume(z3.ForAll([i], z3.Implies(rng, r[i] == self.world.box(val, elem)), patterns=[r[i]]))
+        self.ctx.havocked = True
+        self.ctx.ghost.setdefault("mapped", []).append((r, it.term))
+        return SeqV(r, elem, False)
+
+    def same_term(self, a, b):
+        try:
+            return z3.is_true(z3.simplify(a == b))
+        except z3.Z3Exception:
+            return False
+
+    def type_of(self, v):
+        if isinstance(v, bool) or is_sym_bool(v):
+            return Bool
+        if isinstance(v, int) or is_sym_int(v):
+            return Int
+        if isinstance(v, (FloatV, float)):
+            return Float
+        if isinstance(v, Rec):
+            return RecT(v.cls.name)
+        if isinstance(v, tuple):
+            ts = [self.type_of(x) for x in v]
+            if any(t is None for t in ts):
+                return None
+            from .engine import TupleT
+            return TupleT(*ts)
+        if isinstance(v, z3.ExprRef) and v.sort() == LabelSort:
+            from .engine import Label
+            return Label
+        return None
 
     def e_GeneratorExp(self, n, env):
-        return PyList(self.comp(n, env, lambda e: self.eval(n.elt, e)))
+        sc = self.sym_comp(n, env)
+        if sc is None:
+            return PyList(self.comp(n, env, lambda e: self.eval(n.elt, e)))
+        return SymGen(*sc[:3])
 
     def e_DictComp(self, n, env):
         d = {}
@@ -647,6 +788,9 @@ class Interp:
                 return [env[texpr.id].name]
             return [texpr.id]
         if isinstance(texpr, ast.Attribute):
+            if texpr.attr == "__class__":
+                o = self.eval(texpr.value, env)
+                return [o.cls.name] if isinstance(o, Rec) else ["<class of a non-record>"]
             return [texpr.attr]
         if isinstance(texpr, ast.Constant) and texpr.value is None:
             return ["NoneType"]
@@ -671,18 +815,18 @@ class Interp:
         if nm == "str":
             return isinstance(v, str)
         if nm == "tuple":
-            return isinstance(v, tuple) or (isinstance(v, SeqV) and v.is_tuple)
+            return isinstance(v, tuple) or (isinstance(v, SeqV) and v.is_tuple) or (isinstance(v, Rec) and v.cls.is_namedtuple)
         if nm == "list":
             return isinstance(v, PyList) or (isinstance(v, SeqV) and not v.is_tuple)
         if nm in ("Sequence", "Iterable"):
-            return isinstance(v, (tuple, PyList, SeqV, str))
+            return isinstance(v, (tuple, PyList, SeqV, str)) or (isinstance(v, Rec) and v.cls.is_namedtuple)
         if nm == "dict":
             return isinstance(v, dict)
         if nm == "NoneType":
             return v is None
         if nm in self.world.classes or isinstance(v, Rec):
             return isinstance(v, Rec) and (v.cls.name == nm or nm in getattr(v.cls, "bases", ()))
-        if nm in ("ndarray", "complex", "set", "frozenset", "Callable"):
+        if nm in ("ndarray", "complex", "set", "frozenset", "Callable", "<class of a non-record>"):
             return False
         raise Unsupp(f"isinstance against {nm}")
 
@@ -714,6 +858,14 @@ class Interp:
         return self.eval(c.node.body, env)
 
     def instantiate(self, ci: ClassInfo, args, kwargs):
+        if "__new__" in ci.methods:
+            obj = self.call_user(ci.methods["__new__"], [FuncRef("class", ci.name, ci)] + list(args), kwargs, ci,
+                                 qual=f"{ci.name}.__new__")
+            if not (isinstance(obj, Rec) and obj.cls is ci):
+                return obj
+            if "__init__" in ci.methods:
+                self.call_user(ci.methods["__init__"], [obj] + list(args), kwargs, ci, qual=f"{ci.name}.__init__")
+            return obj
         obj = Rec(ci, {})
         if "__init__" in ci.methods:
             self.call_user(ci.methods["__init__"], [obj] + list(args), kwargs, ci, qual=f"{ci.name}.__init__")
@@ -743,6 +895,7 @@ class Interp:
         # modular call: use the callee's contract instead of its body
         mc = self.world.modular.get(qual) if qual else None
         if mc is not None and not (self.top_fn is fn):
+            self.ctx.havocked = True
             return mc(self, args, kwargs)
         if self.ctx.depth > MAX_DEPTH:
             raise Unsupp(f"call depth exceeded at {qual}")
@@ -863,6 +1016,8 @@ class Interp:
             return z3.Length(v.term)
         if isinstance(v, Rec) and "__len__" in v.cls.methods:
             return self.call_method(v, "__len__", [], {})
+        if isinstance(v, Rec) and v.cls.is_namedtuple:
+            return len(v.cls.fields)
         raise Unsupp(f"len of {v!r}")
 
     def _minmax(self, args, kw, is_max):
@@ -890,6 +1045,10 @@ class Interp:
         return self._minmax(args, kw, False)
 
     def b_sum(self, args, kw, node):
+        if isinstance(args[0], (SymGen, SeqV)):
+            if "sum" in self.world.extra_builtins:
+                return self.world.extra_builtins["sum"](self, args, kw)
+            raise Unsupp("sum over a symbolic-length sequence needs a spec function (extra_builtins['sum'])")
         items = self.iter_concrete(args[0])
         r = args[1] if len(args) > 1 else 0
         for x in items:
@@ -897,12 +1056,20 @@ class Interp:
         return r
 
     def b_all(self, args, kw, node):
+        if isinstance(args[0], SymGen):
+            g = args[0]
+            if g.val is IDENTITY:
+                raise Unsupp("all() over the elements themselves")
+            return z3.ForAll([g.i], z3.Implies(z3.And(g.i >= 0, g.i < z3.Length(g.it.term)), to_bool_term(self.truthy(g.val))))
         r = True
         for x in self.iter_concrete(args[0]):
             r = self.and_(r, self.truthy(x))
         return r
 
     def b_any(self, args, kw, node):
+        if isinstance(args[0], SymGen):
+            g = args[0]
+            return z3.Exists([g.i], z3.And(g.i >= 0, g.i < z3.Length(g.it.term), to_bool_term(self.truthy(g.val))))
         r = False
         for x in self.iter_concrete(args[0]):
             r = self.or_(r, self.truthy(x))
@@ -912,6 +1079,9 @@ class Interp:
         if not args:
             return ()
         v = args[0]
+        if isinstance(v, SymGen):
+            r = self.sym_map(v.it, v.i, v.val)
+            return SeqV(r.term, r.elem, True)
         if isinstance(v, SeqV):
             return SeqV(v.term, v.elem, True)
         return tuple(self.iter_concrete(v))
@@ -920,6 +1090,8 @@ class Interp:
         if not args:
             return PyList([])
         v = args[0]
+        if isinstance(v, SymGen):
+            return self.sym_map(v.it, v.i, v.val)
         if isinstance(v, SeqV):
             return SeqV(v.term, v.elem, False)
         return PyList(self.iter_concrete(v))
@@ -968,6 +1140,17 @@ class Interp:
 
     def b_isqrt(self, args, kw, node):
         return self.b_math_isqrt(args, kw, node)
+
+    def b_object___new__(self, args, kw, node):
+        c = args[0]
+        if isinstance(c, FuncRef) and c.kind == "class":
+            return Rec(c.info, {})
+        raise Unsupp("object.__new__ of a non-class")
+
+    def b_hash(self, args, kw, node):
+        if "hash" in self.world.extra_builtins:
+            return self.world.extra_builtins["hash"](self, args, kw)
+        raise Unsupp("hash needs a spec function")
 
     def b_type(self, args, kw, node):
         v = args[0]
@@ -1097,6 +1280,16 @@ class Interp:
     def s_Expr(self, s, env):
         if isinstance(s.value, ast.Constant):
             return
+        if isinstance(s.value, ast.Yield):
+            v = self.eval(s.value.value, env) if s.value.value is not None else None
+            y = env.get("yielded")
+            if y is None:
+                raise Unsupp("yield outside a generator under contract")
+            if isinstance(y, PyList):
+                y.items.append(v)
+            else:
+                y.term = z3.Concat(y.term, z3.Unit(self.world.box(v, y.elem)))
+            return
         self.eval(s.value, env)
 
     def s_Pass(self, s, env):
@@ -1126,6 +1319,10 @@ class Interp:
             name = e.id
             if name in env and isinstance(env[name], ExcValue):
                 name = env[name].name
+        elif isinstance(e, ast.Attribute):
+            v = self.eval(e, env)
+            if isinstance(v, ExcValue):
+                name = v.name
         if name is None:
             raise Unsupp("raise of a computed exception")
         raise RaiseExc(name, s)
@@ -1271,8 +1468,15 @@ class Interp:
             n = z3.Length(it.term)
             env[ivar] = 0
 
+            def nth(term, i):
+                # element i of extract(base, off, n) is base[off + i] (inside the loop 0 <= i < len): keeps VCs about `base`
+                if z3.is_app_of(term, z3.Z3_OP_SEQ_EXTRACT):
+                    base, off, _ = term.children()
+                    return base[off + i]
+                return term[i]
+
             def pre(e):
-                self.assign(s.target, self.world.unbox(it.term[to_int_term(e[ivar])], it.elem), e)
+                self.assign(s.target, self.world.unbox(nth(it.term, to_int_term(e[ivar])), it.elem), e)
 
             def cond(e):
                 return to_int_term(e[ivar]) < n
@@ -1320,6 +1524,7 @@ class Interp:
                 ctx.assume(ax)
         ctx.prove(inv_holds(env), f"loop{ordinal}@{s.lineno}/inv-init")
         # havoc everything the body may modify
+        ctx.havocked = True
         mod = assigned_names(s.body) | set(extra_mod)
         if isinstance(s, ast.For):
             mod |= target_names(s.target)
@@ -1476,6 +1681,8 @@ def assigned_names(body):
                 for t in n.targets:
                     if isinstance(t, ast.Subscript) and isinstance(t.value, ast.Name):
                         out.add(t.value.id)
+            elif isinstance(n, ast.Yield):
+                out.add("yielded")
     return out
 
 
